@@ -7,7 +7,7 @@ tests (harness/py/c20_run_unittests.py) say.
     python3 tools/props/c20_selftest.py /tmp/rw-c20 [mutation names...]
     git -C /repo worktree remove --force /tmp/rw-c20
 
-M1..M16 and REVERT-1b62c73 (the reverse of the repair of F29a/F29b) break C20: every one must end in
+M1..M17 and REVERT-1b62c73 (the reverse of the repair of F29a/F29b) break C20: every one must end in
 `VIOLATION property=C20`; FIX-c-name is a repair proposed for F29c (the monitor must stop reporting that
 finding; the model no longer matches the code, which is reported as a broken correspondence until
 Model/RouteCtl.v follows the fix)."""
@@ -32,6 +32,7 @@ MUTS={
  "M14-no-purge-on-delete-while-pending": [("            if route_entry in pending:\n                pending.remove(route_entry)\n","            if route_entry in pending and False:\n                pending.remove(route_entry)\n")],
  "M15-only-first-pending-route-installed": [("            for route_entry in route_entries:\n","            for route_entry in route_entries[:1]:\n")],
  "M16-purge-drops-all-waiting-routes": [("                pending.remove(route_entry)\n","                pending.clear()\n")],
+ "M17-neighbour-message-without-lladdr-tolerated": [("        gateway_mac = attr_dict[KEY_LINK_LAYER_ADDRESS]\n","        gateway_mac = attr_dict.get(KEY_LINK_LAYER_ADDRESS)\n")],
  # the reverse of the repair 1b62c73 (F29a + F29b come back): must be a VIOLATION with a replay, not a known finding
  "REVERT-1b62c73": "git-revert",
  # a repair proposed for F29c (the monitor must stop reporting F29c; shared-MAC next hops then break)
